@@ -6,9 +6,6 @@
 (*                                                                         *)
 (*   Servers  the servers; each holds its own copy of the group            *)
 (*   gs       server -> group value (GroupOps) or NoGroup                  *)
-(*   pend     server -> set of [s, e]: StreamDeleted(s, e) calls that the   *)
-(*            server has started (a goroutine per deleted stream, see      *)
-(*            metadataAPI.removeStream) but that have not run yet          *)
 (*   parts    stream -> number of partitions, 0 = the stream does not      *)
 (*            exist (what getStreamPartitions answers)                     *)
 (*   idx      Raft index of the last applied operation; operation k is     *)
@@ -16,9 +13,12 @@
 (*   obs      result of the last call                                      *)
 (*                                                                         *)
 (* A committed operation is applied by every server in the same step (the  *)
-(* servers do not interact, only the relative order of an operation and    *)
-(* of the asynchronous StreamDeleted calls on ONE server matters, and that *)
-(* order is free: DoRunSD).                                                *)
+(* servers do not interact).  A deleted stream is announced to the groups  *)
+(* (StreamDeleted) as part of the apply of its DELETE_STREAM, before the   *)
+(* apply returns (metadataAPI.removeStream returns the announcement and    *)
+(* its callers run it right after releasing the metadata mutex) - until    *)
+(* fix 8dda9e6 it was a goroutine racing the later applies (findings           *)
+(* C12-stream-deleted-overtaken / -late).                                  *)
 (*                                                                         *)
 (* Do<Action> = as the code performs it.  P_<Action> and the C12_*         *)
 (* invariants = what property C12 demands.                                 *)
@@ -26,14 +26,13 @@
 EXTENDS GroupOps, TLC
 
 CONSTANTS Servers
-VARIABLES gs, pend, parts, idx, obs
-vars == <<gs, pend, parts, idx, obs>>
+VARIABLES gs, parts, idx, obs
+vars == <<gs, parts, idx, obs>>
 
 Obs(a, srv, err, ret) == [a |-> a, srv |-> srv, err |-> err, ret |-> ret]
 
 Init ==
   /\ gs = [v \in Servers |-> NoGroup]
-  /\ pend = [v \in Servers |-> {}]
   /\ parts = [s \in {} |-> 0]
   /\ idx = 0
   /\ obs = Obs("Open", "", "", <<>>)
@@ -49,16 +48,17 @@ DoCreateStream(s, n) ==
   /\ parts' = Put(parts, s, n)
   /\ idx' = idx + 1
   /\ obs' = Obs("CreateStream", "", "", <<>>)
-  /\ UNCHANGED <<gs, pend>>
-
-\* DELETE_STREAM: the stream is gone at once; every server starts a goroutine
-\* that will call StreamDeleted(s, index) on the groups it has THEN
-DoDeleteStream(s) ==
-  /\ parts' = Put(parts, s, 0)
-  /\ idx' = idx + 1
-  /\ pend' = [v \in Servers |-> pend[v] \cup {[s |-> s, e |-> idx + 1]}]
-  /\ obs' = Obs("DeleteStream", "", "", <<>>)
   /\ UNCHANGED gs
+
+\* DELETE_STREAM: the stream is gone and, in the same apply, every server calls
+\* StreamDeleted(s, index) on the groups it has (the epoch guard cannot refuse
+\* it: the index is larger than every epoch handed out before)
+DoDeleteStream(s) ==
+  LET pc == Put(parts, s, 0) IN
+  /\ parts' = pc
+  /\ idx' = idx + 1
+  /\ gs' = [v \in Servers |-> IF gs[v].exists THEN GStreamDeleted(gs[v], s, idx + 1, pc) ELSE gs[v]]
+  /\ obs' = Obs("DeleteStream", "", "", <<>>)
 
 \* CREATE_CONSUMER_GROUP (first join): the operation carries no epoch, a new
 \* group starts at epoch 0 whatever the index
@@ -67,7 +67,7 @@ DoCreateGroup(c, streams, coord) ==
                                ELSE GAddMember(NewGroup(coord, 0), c, streams, parts)]
   /\ idx' = idx + 1
   /\ obs' = Obs("CreateGroup", "", IF GroupExists THEN "exists" ELSE "", <<>>)
-  /\ UNCHANGED <<pend, parts>>
+  /\ UNCHANGED parts
 
 \* JOIN_CONSUMER_GROUP -> AddMember(consumer, streams, index)
 DoJoin(c, streams) ==
@@ -76,7 +76,7 @@ DoJoin(c, streams) ==
                                ELSE [GAddMember(gs[v], c, streams, parts) EXCEPT !.epoch = e]]
   /\ idx' = e
   /\ obs' = Obs("Join", "", IF ~GroupExists THEN "no_group" ELSE "", <<>>)
-  /\ UNCHANGED <<pend, parts>>
+  /\ UNCHANGED parts
 
 \* LEAVE_CONSUMER_GROUP -> RemoveMember(consumer, index); the last member
 \* takes the group with it.  An expired member is removed by the same
@@ -90,7 +90,7 @@ DoLeave(c) ==
                                THEN gs[v] ELSE Left(gs[v])]
   /\ idx' = e
   /\ obs' = Obs("Leave", "", IF \E v \in Servers : c \notin Members(gs[v]) THEN "not_member" ELSE "", <<>>)
-  /\ UNCHANGED <<pend, parts>>
+  /\ UNCHANGED parts
 
 \* CHANGE_CONSUMER_GROUP_COORDINATOR -> SetCoordinator(coordinator, index)
 DoChangeCoordinator(coord) ==
@@ -99,7 +99,7 @@ DoChangeCoordinator(coord) ==
                                ELSE [gs[v] EXCEPT !.coord = coord, !.epoch = e]]
   /\ idx' = e
   /\ obs' = Obs("ChangeCoordinator", "", "", <<>>)
-  /\ UNCHANGED <<pend, parts>>
+  /\ UNCHANGED parts
 
 \* Leader-side admission (metadata.go checkCreateConsumerGroupPreconditions /
 \* checkJoinConsumerGroupPreconditions): a request is proposed to Raft only if
@@ -108,7 +108,7 @@ DoChangeCoordinator(coord) ==
 \* no index.  (Part of what makes C12 hold: a member subscribed to a stream
 \* that is created later would never get its partitions.)
 AllExist(S) == \A s \in S : Exists(s)
-Refused(a) == /\ obs' = Obs(a, "", "precondition", <<>>) /\ UNCHANGED <<gs, pend, parts, idx>>
+Refused(a) == /\ obs' = Obs(a, "", "precondition", <<>>) /\ UNCHANGED <<gs, parts, idx>>
 DoProposeCreateGroup(c, S, coord) ==
   IF ~GroupExists /\ AllExist(S) THEN DoCreateGroup(c, S, coord) ELSE Refused("CreateGroup")
 DoProposeJoin(c, S) ==
@@ -117,88 +117,62 @@ DoProposeJoin(c, S) ==
 -----------------------------------------------------------------------------
 (* Local steps of one server *)
 
-\* the goroutine started by removeStream runs now: StreamDeleted(x.s, x.e) on
-\* the group the server has at this moment, with the partition counts of now
-DoRunSD(v, x) ==
-  /\ x \in pend[v]
-  /\ pend' = [pend EXCEPT ![v] = @ \ {x}]
-  /\ gs' = [gs EXCEPT ![v] = IF @.exists THEN GStreamDeleted(@, x.s, x.e, parts) ELSE @]
-  /\ obs' = Obs("RunSD", v, IF gs[v].exists /\ SDRefused(gs[v], x.e) THEN "refused" ELSE "", <<>>)
-  /\ UNCHANGED <<parts, idx>>
-
 \* server v restarts from a snapshot taken now (fsm.go Snapshot/Restore, no log
 \* suffix): the group is rebuilt from (members with their streams, coordinator,
 \* epoch) by adding the members one by one in the order of the snapshot (a Go
-\* map: any order `ord`), then finishedRecovery starts it.  Announcements that
-\* were still outstanding would die with the process, so the step is taken
-\* only when there are none.
+\* map: any order `ord`), then finishRestore starts it.
 RECURSIVE AddInOrder(_, _, _, _)
 AddInOrder(g, q, subs, pc) ==
   IF q = <<>> THEN g ELSE AddInOrder(GAddMember(g, Head(q), subs[Head(q)], pc), Tail(q), subs, pc)
 
 DoRestore(v, ord) ==
-  /\ gs[v].exists /\ pend[v] = {}
+  /\ gs[v].exists
   /\ gs' = [gs EXCEPT ![v] = AddInOrder(NewGroup(@.coord, @.epoch), ord, @.subs, parts)]
   /\ obs' = Obs("Restore", v, "", <<>>)
-  /\ UNCHANGED <<pend, parts, idx>>
+  /\ UNCHANGED <<parts, idx>>
 
 \* FetchConsumerGroupAssignments(consumer, epoch) served by server v
 DoGetAssignments(v, c, e) ==
   /\ obs' = (IF ~gs[v].exists THEN Obs("GetAssignments", v, "no_group", <<>>)
              ELSE LET r == GGetAssignments(gs[v], c, e, v) IN Obs("GetAssignments", v, r.err, r.ret))
-  /\ UNCHANGED <<gs, pend, parts, idx>>
+  /\ UNCHANGED <<gs, parts, idx>>
 
 -----------------------------------------------------------------------------
 (* What C12 demands.                                                       *)
 (* The statement speaks about the assignment "after any sequence of        *)
-(* operations".  A deleted stream is announced to the groups by a separate *)
-(* asynchronous step, so between DELETE_STREAM and that step a server      *)
-(* necessarily still shows the old subscriptions.  Reading that demands    *)
-(* less: the per-stream requirements are imposed on stream s at server v   *)
-(* only while no StreamDeleted(s, _) is outstanding at v.                  *)
+(* operations": the requirements are imposed after EVERY applied operation *)
+(* (since the announcement of a deleted stream is part of its apply there  *)
+(* is no window to exempt any more).                                       *)
 
-Quiet(v, s) == \A x \in pend[v] : x.s # s
 Seq2SetS(q) == {q[i] : i \in DOMAIN q}
 
 C12_ExactlyOne ==
   \A v \in Servers : gs[v].exists =>
-    (\A s \in DOMAIN parts : Quiet(v, s) => ExactlyOneFor(gs[v], s, parts[s]))
+    (\A s \in DOMAIN parts : ExactlyOneFor(gs[v], s, parts[s]))
 
 C12_NoForeign == \A v \in Servers : gs[v].exists => NoForeign(gs[v])
 
 C12_AssignedExist ==
   \A v \in Servers : gs[v].exists =>
-    (\A s \in DOMAIN gs[v].heap : Quiet(v, s) => AssignedExistFor(gs[v], s, PartsOf(parts, s)))
+    (\A s \in DOMAIN gs[v].heap : AssignedExistFor(gs[v], s, PartsOf(parts, s)))
 
 C12_Balanced ==
-  \A v \in Servers : gs[v].exists =>
-    ((\A s \in DOMAIN gs[v].heap : Quiet(v, s)) => Balanced(gs[v]))
+  \A v \in Servers : gs[v].exists => Balanced(gs[v])
 
 \* servers that applied the same operations hand out identical assignments
-\* for the same group epoch.  As above, a stream whose deletion is still to be
-\* announced on one of the two servers is left out of the comparison (the
-\* announcement reads the partition counts when it runs, so the servers may
-\* differ on such a stream until both have processed it).
+\* for the same group epoch
 StreamView(g, s) == [c \in Members(g) |-> [sub |-> s \in g.subs[c],
                                            asg |-> IF s \in DOMAIN g.asg[c] THEN g.asg[c][s] ELSE <<>>]]
 C12_SameEpochSame ==
   \A v, w \in Servers :
     (gs[v].exists /\ gs[w].exists /\ gs[v].epoch = gs[w].epoch) =>
        /\ Members(gs[v]) = Members(gs[w])
-       /\ \A s \in Seq2SetS(StreamOrder) : (Quiet(v, s) /\ Quiet(w, s)) => StreamView(gs[v], s) = StreamView(gs[w], s)
+       /\ \A s \in Seq2SetS(StreamOrder) : StreamView(gs[v], s) = StreamView(gs[w], s)
 
-\* once every announcement has been processed the servers agree entirely
+\* servers that applied the same operations agree entirely
 C12_Converged ==
-  (\A v \in Servers : pend[v] = {}) =>
      (\A v, w \in Servers : gs[v].exists = gs[w].exists /\
         (gs[v].exists => (gs[v].asg = gs[w].asg /\ gs[v].subs = gs[w].subs /\ gs[v].epoch = gs[w].epoch)))
-
-\* the two ways in which the asynchronous announcement goes wrong (culprits of
-\* the known finding): a later group operation overtook it, so the epoch guard
-\* will refuse / has refused it; or it ran so late that the stream name is in
-\* use again
-Overtaken == \E v \in Servers : gs[v].exists /\ \E x \in pend[v] : SDRefused(gs[v], x.e)
-LateFor(v, x) == gs[v].exists /\ Exists(x.s) /\ x.s \in DOMAIN gs[v].heap
 
 ImplInv == \A v \in Servers : gs[v].exists => CountersOK(gs[v]) /\ HeapsOK(gs[v])
 
@@ -215,12 +189,12 @@ P_Join(c, streams) ==
 P_Leave(c) ==
   \A v \in Servers : /\ (gs'[v].exists => Members(gs'[v]) = Members(gs[v]) \ {c})
                      /\ ((gs[v].exists /\ Members(gs[v]) # {c}) => gs'[v].exists)
-\* StreamDeleted changes no membership and touches only the subscriptions to s
-P_RunSD(v, x) ==
-  /\ \A w \in Servers \ {v} : gs'[w] = gs[w]
-  /\ gs'[v].exists = gs[v].exists
-  /\ (gs[v].exists => /\ Members(gs'[v]) = Members(gs[v])
-                      /\ \A c \in Members(gs[v]) : gs'[v].subs[c] \in {gs[v].subs[c], gs[v].subs[c] \ {x.s}})
+\* a deleted stream changes no membership and touches only the subscriptions to s
+P_DeleteStream(s) ==
+  \A v \in Servers :
+    /\ gs'[v].exists = gs[v].exists
+    /\ (gs[v].exists => /\ Members(gs'[v]) = Members(gs[v])
+                        /\ \A c \in Members(gs[v]) : gs'[v].subs[c] \in {gs[v].subs[c], gs[v].subs[c] \ {s}})
 \* a restore keeps membership, subscriptions, coordinator and epoch
 P_Restore(v) ==
   /\ \A w \in Servers \ {v} : gs'[w] = gs[w]
